@@ -8,6 +8,7 @@ import (
 	"errors"
 	"fmt"
 	"io"
+	"strings"
 
 	"seehuhn.de/go/pdf"
 	"verif/sim/core"
@@ -148,7 +149,72 @@ func workload(h *simdisk.Handle, size int64, opt *pdf.ReaderOptions, refs []pdf.
 			steps = append(steps, step{name: name, val: v})
 		}
 	}
+	steps = append(steps, copyStep(r, refs))
 	return steps
+}
+
+// copyStep copies the first few references into a fresh in-memory target with
+// a Copier, closes and reopens the target and renders what arrived there.  The
+// source reader is the faulted one: a copy must either produce what it
+// produces without the fault or report the source's error.
+func copyStep(r *pdf.Reader, refs []pdf.Reference) step {
+	st := step{name: "Copy"}
+	var buf bytes.Buffer
+	w, err := pdf.NewWriter(&buf, pdf.V2_0, nil)
+	if err != nil {
+		st.err = err
+		return st
+	}
+	c := pdf.NewCopier(w, r)
+	var copied []pdf.Reference
+	for i, ref := range refs {
+		if i >= 4 {
+			break
+		}
+		nr, err := c.CopyReference(ref)
+		if err != nil {
+			st.err = err
+			return st
+		}
+		copied = append(copied, nr)
+	}
+	pages := w.Alloc()
+	w.Put(pages, pdf.Dict{"Type": pdf.Name("Pages"), "Kids": pdf.Array{}, "Count": pdf.Integer(0)})
+	w.GetMeta().Catalog.Pages = pages
+	if err := w.Close(); err != nil {
+		st.err = err
+		return st
+	}
+	tr, err := pdf.NewReader(bytes.NewReader(buf.Bytes()), int64(buf.Len()), nil)
+	if err != nil {
+		st.err = fmt.Errorf("target of the copy does not open: %w", err)
+		return st
+	}
+	var parts []string
+	for _, nr := range copied {
+		obj, err := tr.Get(nr, true)
+		if err != nil {
+			parts = append(parts, "error")
+			continue
+		}
+		if stm, ok := obj.(*pdf.Stream); ok {
+			data := []byte(nil)
+			if rc, err := pdf.DecodeStream(tr, nil, stm); err == nil {
+				data, _ = io.ReadAll(rc)
+				rc.Close()
+			}
+			parts = append(parts, fmt.Sprintf("stream %d bytes %x", len(data), hash(data)))
+		} else if _, isRef := obj.(pdf.Reference); !isRef {
+			// values only: object numbers in the target are not part of the result
+			if d, isDict := obj.(pdf.Dict); isDict {
+				parts = append(parts, fmt.Sprintf("dict with %d keys", len(d)))
+			} else {
+				parts = append(parts, fmt.Sprintf("%T", obj))
+			}
+		}
+	}
+	st.val = strings.Join(parts, "; ")
+	return st
 }
 
 func hash(b []byte) uint64 { return tape.HashString(string(b)) }
